@@ -150,7 +150,8 @@ PROPS["C16"] = {
                  "GoSup.Props.C16.plan_fails_with_clash",
                  "GoSup.Props.C16.c16_unchanged_kept", "GoSup.Props.C16.c16_removed_gone", "GoSup.Props.C16.c16_new_or_changed",
                  "GoSup.Props.C16.c16_committed", "GoSup.Props.C16.c16_accounting", "GoSup.Props.C16.c16_old_stopped_first",
-                 "GoSup.Props.C16.c16_count", "GoSup.Props.C16.c16_every_sequence", "GoSup.Props.C16.c16_run_all_stopped"],
+                 "GoSup.Props.C16.c16_count", "GoSup.Props.C16.c16_every_sequence", "GoSup.Props.C16.c16_run_all_stopped",
+                 "GoSup.Props.C16.c16_run_all_stopped_cut"],
     "ties": [],
     "legs": [{"name": "planner", "cmd": "planner"}, {"name": "cluster", "cmd": "cluster"}],
     "rule": "planner (newEntries/buildPendingEntries/getPendingActions/commit through the verif export) on seeded (current, desired) "
@@ -174,7 +175,8 @@ PROPS["C16"] = {
                   "removed ids are gone, new/changed ids are served by a fresh instance with the desired configuration or dropped, "
                   "every instance not kept is stopped in the stop phase before any start, the runners of the committed entries "
                   "enumerate exactly the instances started and not yet stopped (GetServerCount), and when Run() returns the "
-                  "entries are empty and no instance ever started is live.",
+                  "entries are empty and no instance ever started is live - also when the last update is cut short by the end of "
+                  "the context during restartDelay (c16_run_all_stopped_cut).",
     "level_note": COMMON_NOTE,
     "design_ref": "DESIGN.md section 5, C16",
 }
